@@ -57,8 +57,12 @@ JsonBad == {"notJSON", "truncatedJSON", "wrongType", "empty", "badBase64"}
 \* the property is silent: JSON followed by junk (json.Decoder on GET accepts it, json.Unmarshal on POST does not);
 \* optional fields missing / a bare null on endpoints that carry no signed data
 Ambiguous == {"trailingJunk", "missingOptional", "jsonNull"}
-\* GET only: the body cannot be read to its end (the error carries what was read)
-TransportBad == {"bodyReadError"}
+\* The body cannot be read to its end (the error carries what was read).  bodyReadError (GET only): the transfer breaks
+\* inside the JSON text.  bodyCutAfterCompleteJSON: the transfer is cut short of its announced length AFTER a complete,
+\* valid (correctly signed) JSON value has arrived - the reader yields the whole text and then io.ErrUnexpectedEOF.  It
+\* is a truncated response all the same: GET methods fail with status and body, a submission asks again.
+BodyCut == "bodyCutAfterCompleteJSON"
+TransportBad == {"bodyReadError", BodyCut}
 
 (* signed tree head: deviations from the valid answer *)
 STHValid == [tree |-> "n", rootLen |-> 32, sigForm |-> "ok", alg |-> "ok", signer |-> "log", over |-> "same"]
@@ -154,7 +158,7 @@ EntryClasses == DOMAIN EntryExpect
 Common == {"valid"} \cup JsonBad \cup {"trailingJunk"}
 ClassesFor(m) ==
   IF m = "GetSTH" THEN (DOMAIN STHClass) \cup JsonBad \cup TransportBad
-  ELSE IF m \in AddMethods THEN (DOMAIN SCTClass) \cup JsonBad
+  ELSE IF m \in AddMethods THEN (DOMAIN SCTClass) \cup JsonBad \cup {BodyCut}
   ELSE IF m \in {"GetEntries", "GetRawEntries"}
          THEN Common \cup TransportBad \cup {"missingOptional", "jsonNull"} \cup (EntryClasses \ {"x509"})
   ELSE Common \cup TransportBad \cup {"missingOptional", "jsonNull"}
@@ -252,8 +256,9 @@ Complete(answers, end, outcome, layer, returns) ==
 
 \* A submission is made again (after a pause that is C13's subject) when the answer carries a retryable status,
 \* and also when a 200 answer cannot be decoded as JSON: PostAndParseWithRetry treats every failure of PostAndParse
-\* as transient.  The property is silent on this; the clause is named so that the replay follows the code.
-AsksAgain(m, st, cl) == m \in AddMethods /\ (st \in Retryable \/ (st = 200 /\ cl \in JsonBad))
+\* as transient - an undecodable body as well as one whose transfer was cut short.  The property is silent on the
+\* repetition; the clause is named so that the replay follows the code.  Nothing may be returned from such an answer.
+AsksAgain(m, st, cl) == m \in AddMethods /\ (st \in Retryable \/ (st = 200 /\ cl \in JsonBad \cup {BodyCut}))
 \* exploration bound: which repeated requests get an answer (the others only see the context expire)
 FollowedUp(a) == \/ a.status \in RetryStatuses /\ a.class \in RetryBodies
                  \/ a.status = 200 /\ a.class \in UndecodableBodies
